@@ -232,7 +232,7 @@ def run_shard(shard: Dict[str, Any]) -> Acc:
         acc.hist("class", cls)
         acc.hist("mutation", prog["mutation"]["kind"] + "/" + prog["mutation"]["side"])
         flags: Dict[str, Any] = {}
-        common.guarded(acc, check_program, prog, acc, flags)
+        common.guarded(acc, check_program, prog, acc, flags, case={"program": prog})
         acc.case(bp.phash(prog), bool(flags.get("nontrivial")), sample=prog if i < 40 else None)
     for k in discover().keys():
         acc.counters.setdefault("kind_" + k, 0)
